@@ -145,7 +145,7 @@ class PassHarness(Harness):
                              "ppci.utils.bitfun", "ppci.irutils.verify", "ppci.ir")
 
     def inputs(self, mk):
-        if self.prog.startswith("ir:"):
+        if self.prog.startswith(("ir:", "irh:")):
             import io
             from ppci.irutils import read_module
             text = irprogs.source(self.prog)
@@ -210,6 +210,13 @@ class PassHarness(Harness):
                 res["premise"] = _tv.term_out(s1.premise())
             except irsem.Unsupported as e:
                 res["unsupported"] = str(e)[:120]
+            except core.PathCut:
+                # families that contain infinite loops by construction (flagged skeletons, irh:): the structural
+                # obligations of C03 are still checked on this path; C02 records the path as not comparable
+                if not (self.prog.startswith("irh:") or self.prog.count(":") == 3):
+                    raise
+                res.pop("o1", None)
+                res["unsupported"] = "unwinding bound reached"
         return res
 
     def post(self, i, out):
@@ -275,6 +282,13 @@ def jobs_for(prop, tier, seed):
         for cfg in ("pass:CleanPass", "level:2", "seq:Mem2RegPromotor+ConstantFolder+CJumpPass+CleanPass") if tier == "quick" \
                 else ("pass:CleanPass", "pass:Mem2RegPromotor", "pass:CJumpPass", "pass:TailCallOptimization", "level:2", "level:s",
                       "seq:Mem2RegPromotor+ConstantFolder+CJumpPass+CleanPass"):
+            js.append(("mk_pass", dict(prop=prop, prog=nm, config=cfg, symconst=False)))
+    # skeletons with EMPTY (jump-only) blocks incl. empty cycles, and hand-written templates with stack slots
+    # allocated outside the entry block (seeds C03/C, C03/D)
+    for nm in irprogs.flagged_names(tier, seed) + irprogs.hand_names():
+        for cfg in ("pass:CleanPass", "pass:Mem2RegPromotor", "level:2") if tier == "quick" \
+                else ("pass:CleanPass", "pass:Mem2RegPromotor", "pass:CJumpPass", "level:2",
+                      "seq:Mem2RegPromotor+ConstantFolder+CJumpPass+CleanPass", "seq:CleanPass+CleanPass"):
             js.append(("mk_pass", dict(prop=prop, prog=nm, config=cfg, symconst=False)))
     only = os.environ.get("VERIF_ONLY")
     if only:
